@@ -1,7 +1,372 @@
-(* C07 -- lemmas about the model of the regularization matrices (coq/Model/C07.v). *)
-From Coq Require Import ZArith List Bool Reals Lra Lia Permutation.
+(* C07 -- lemmas about the model of the regularization matrices (coq/Model/C07.v).  All at ROps. *)
+From Coq Require Import ZArith List Bool Reals Lra Lia Permutation Arith.
 From PAV Require Import Base.Res Base.Check Base.NumOps Base.Sum Model.C07.
 Import ListNotations.
+Local Open Scope R_scope.
 
-Lemma madd_length {O} (M : @mat O) i j v : length (madd M i j v) = length M.
+Notation Rmat := (list (list R)).
+Notation Rentry := (nat * nat * R)%type.
+(* [T ROps] and [R] are convertible but syntactically different atoms for lia *)
+Ltac tr := change (T ROps) with R in *.
+Notation maddR := (@madd ROps).
+Notation mscatterR := (@mscatter ROps).
+Notation buildR := (@build ROps).
+
+(* ------------------------------------------------------------------ shapes *)
+Definition wfm (n : nat) (M : Rmat) : Prop := length M = n /\ Forall (fun r => length r = n) M.
+
+Lemma madd_length (M : Rmat) i j v : length (maddR M i j v) = length M.
 Proof. revert i; induction M as [|r M IH]; intros [|i]; simpl; auto. Qed.
+Lemma madd_wfm n (M : Rmat) i j v : wfm n M -> wfm n (maddR M i j v).
+Proof.
+  intros [HL HF]. split; [rewrite madd_length; exact HL|]. clear HL.
+  revert i; induction HF as [|r M Hr HF IH]; intros [|i]; simpl; try constructor; auto.
+  rewrite (@upd_add_length ROps). exact Hr.
+Qed.
+Lemma mscatter_wfm n (es : list Rentry) : forall M, wfm n M -> wfm n (mscatterR es M).
+Proof. unfold mscatter. induction es as [|e es IH]; intros M H; simpl; auto. apply IH, madd_wfm, H. Qed.
+Lemma mzeros_wfm n : wfm n (@mzeros ROps n n).
+Proof.
+  unfold mzeros, zeros. split; [apply repeat_length|].
+  apply Forall_forall. intros r Hr. apply repeat_spec in Hr. subst. apply repeat_length.
+Qed.
+Lemma build_wfm n (es : list Rentry) : wfm n (buildR n es).
+Proof. apply mscatter_wfm, mzeros_wfm. Qed.
+
+(* ------------------------------------------------------------------ sums *)
+Lemma sumR_map_sub {A} (f g : A -> R) l : sumR (map (fun x => f x - g x) l) = sumR (map f l) - sumR (map g l).
+Proof. induction l; cbn; lra. Qed.
+Lemma sumR_flat_map {A B} (f : A -> list B) (g : B -> R) l :
+  sumR (map g (flat_map f l)) = sumR (map (fun a => sumR (map g (f a))) l).
+Proof. induction l; cbn; auto. rewrite map_app, sumR_app, IHl. reflexivity. Qed.
+Lemma sumR_filter_ind {A} (p : A -> bool) (f : A -> R) l :
+  sumR (map f (filter p l)) = sumR (map (fun x => if p x then f x else 0) l).
+Proof. induction l; cbn; auto. destruct (p a); cbn; lra. Qed.
+Lemma sumR_map_nonneg {A} (f : A -> R) l : (forall x, 0 <= f x) -> 0 <= sumR (map f l).
+Proof. intros H. induction l; cbn; [lra|]. specialize (H a). lra. Qed.
+Lemma sum_nth_seq (F : R -> R) (x : list R) s :
+  sumR (map (fun i => F (nth (i - s) x 0)) (seq s (length x))) = sumR (map F x).
+Proof.
+  revert s. induction x as [|a x IH]; intros s; cbn; auto.
+  replace (s - s)%nat with 0%nat by lia. f_equal.
+  rewrite <- (IH (S s)). apply sumR_map_ext. intros i Hi. apply in_seq in Hi.
+  replace (i - s)%nat with (S (i - S s)) by lia. reflexivity.
+Qed.
+Lemma sum_nth_seq0 (F : R -> R) (x : list R) n : length x = n ->
+  sumR (map (fun i => F (nth i x 0)) (seq 0 n)) = sumR (map F x).
+Proof.
+  intros <-. rewrite <- (sum_nth_seq F x 0). apply sumR_map_ext. intros i _. rewrite Nat.sub_0_r. reflexivity.
+Qed.
+
+(* ------------------------------------------------------------------ bilinear form of a scatter *)
+Definition Rdot (a b : list R) : R := sumR (map (fun p => fst p * snd p) (combine a b)).
+Definition Rbil (x : list R) (M : Rmat) (y : list R) : R := sumR (map (fun xr => fst xr * Rdot (snd xr) y) (combine x M)).
+Lemma dot_R a b : @dot ROps a b = Rdot a b.
+Proof. unfold dot, Rdot. rewrite sumT_sumR. reflexivity. Qed.
+Lemma bil_R x M y : @bil ROps x M y = Rbil x M y.
+Proof.
+  unfold bil, Rbil. rewrite sumT_sumR. apply sumR_map_ext. intros [a r] _. cbn [fst snd]. rewrite dot_R. reflexivity.
+Qed.
+
+Lemma Rdot_upd_add (r : list R) j v y : (j < length r)%nat ->
+  Rdot (@upd_add ROps r j v) y = Rdot r y + v * nth j y 0.
+Proof.
+  unfold Rdot. revert j y. induction r as [|a r IH]; intros j y Hj; simpl in Hj; [lia|].
+  destruct j as [|j], y as [|b y]; cbn [upd_add combine map sumR fst snd nth].
+  all: try (cbn; lra).
+  rewrite IH by lia. lra.
+Qed.
+Lemma Rbil_madd x (M : Rmat) y i j v : (i < length M)%nat -> (j < length (nth i M []))%nat ->
+  Rbil x (maddR M i j v) y = Rbil x M y + nth i x 0 * v * nth j y 0.
+Proof.
+  unfold Rbil. revert i x. induction M as [|r M IH]; intros i x Hi Hj; simpl in Hi; [lia|].
+  destruct i as [|i], x as [|a x]; cbn [madd combine map sumR fst snd nth].
+  - ring.
+  - cbn [nth] in Hj. rewrite Rdot_upd_add by exact Hj. ring.
+  - ring.
+  - cbn [nth] in Hj. rewrite IH; [ring | tr; lia | exact Hj].
+Qed.
+
+Definition inr (n : nat) (e : Rentry) : Prop := (fst (fst e) < n)%nat /\ (snd (fst e) < n)%nat.
+(* the sum  sum_e f(i_e) * v_e * g(j_e)  over an update list *)
+Definition ES (es : list Rentry) (f g : nat -> R) : R :=
+  sumR (map (fun e => f (fst (fst e)) * snd e * g (snd (fst e))) es).
+
+Lemma wfm_row n (M : Rmat) i : wfm n M -> (i < n)%nat -> length (nth i M []) = n.
+Proof.
+  intros [HL HF] Hi. rewrite Forall_forall in HF. apply HF. apply nth_In. lia.
+Qed.
+Lemma Rbil_mscatter n x y (es : list Rentry) : Forall (inr n) es -> forall M, wfm n M ->
+  Rbil x (mscatterR es M) y = Rbil x M y + ES es (fun i => nth i x 0) (fun j => nth j y 0).
+Proof.
+  unfold mscatter, ES. induction 1 as [|[[i j] v] es [Hi Hj] HF IH]; intros M HM; cbn [fold_left map sumR fst snd]; [lra|].
+  cbn [fst snd] in Hi, Hj.
+  rewrite IH by (apply madd_wfm, HM).
+  rewrite Rbil_madd.
+  - lra.
+  - destruct HM as [HL _]. lia.
+  - rewrite (wfm_row n) by auto. exact Hj.
+Qed.
+Lemma Rdot_zeros m y : Rdot (@zeros ROps m) y = 0.
+Proof.
+  unfold Rdot, zeros, zero. cbn. revert y. induction m; intros [|b y]; cbn; auto. rewrite IHm. lra.
+Qed.
+Lemma Rbil_mzeros n m x y : Rbil x (@mzeros ROps n m) y = 0.
+Proof.
+  unfold Rbil, mzeros. revert x. induction n; intros [|a x]; cbn [repeat combine map sumR fst snd]; auto.
+  rewrite IHn, Rdot_zeros. lra.
+Qed.
+Lemma Rbil_build n x y (es : list Rentry) : Forall (inr n) es ->
+  Rbil x (buildR n es) y = ES es (fun i => nth i x 0) (fun j => nth j y 0).
+Proof. intros H. unfold build. rewrite (Rbil_mscatter n) by (auto using mzeros_wfm). rewrite Rbil_mzeros. lra. Qed.
+
+(* entries through unit vectors *)
+Definition ind (a i : nat) : R := if Nat.eqb i a then 1 else 0.
+Lemma nth_map_seq {A} (f : nat -> A) d n : forall s i,
+  nth i (map f (seq s n)) d = if (i <? n)%nat then f (s + i)%nat else d.
+Proof.
+  induction n as [|n IH]; intros s i; cbn [seq map].
+  - destruct i; reflexivity.
+  - destruct i as [|i]; cbn [nth].
+    + rewrite Nat.add_0_r. reflexivity.
+    + rewrite IH. replace (S s + i)%nat with (s + S i)%nat by lia. reflexivity.
+Qed.
+Lemma nth_unit n a i : nth i (@unit ROps n a) 0 = if (i <? n)%nat then ind a i else 0.
+Proof. unfold unit, ind. rewrite nth_map_seq. cbn. reflexivity. Qed.
+Lemma Rdot_unit_gen (r : list R) s b :
+  Rdot r (map (fun i => if Nat.eqb i b then @one ROps else @zero ROps) (seq s (length r))) = if (s <=? b)%nat then nth (b - s) r 0 else 0.
+Proof.
+  unfold Rdot. revert s. induction r as [|a r IH]; intros s; cbn [length seq map combine sumR fst snd].
+  - destruct (s <=? b)%nat; [destruct (b - s)%nat|]; reflexivity.
+  - rewrite IH. destruct (Nat.eqb s b) eqn:E.
+    + apply Nat.eqb_eq in E. subst. replace (b - b)%nat with 0%nat by lia.
+      destruct (S b <=? b)%nat eqn:E1; [apply Nat.leb_le in E1; lia|].
+      rewrite Nat.leb_refl. cbn. lra.
+    + apply Nat.eqb_neq in E. destruct (s <=? b)%nat eqn:E1.
+      * apply Nat.leb_le in E1. destruct (S s <=? b)%nat eqn:E2; [|apply Nat.leb_gt in E2; lia].
+        replace (b - s)%nat with (S (b - S s)) by lia. cbn. lra.
+      * apply Nat.leb_gt in E1. destruct (S s <=? b)%nat eqn:E2; [apply Nat.leb_le in E2; lia|]. cbn. lra.
+Qed.
+Lemma Rdot_unit (r : list R) b : Rdot r (@unit ROps (length r) b) = nth b r 0.
+Proof. unfold unit. rewrite Rdot_unit_gen. cbn. rewrite Nat.sub_0_r. reflexivity. Qed.
+Lemma Rbil_unit_l n (M : Rmat) a y : length M = n ->
+  Rbil (@unit ROps n a) M y = Rdot (nth a M []) y.
+Proof.
+  intros <-. unfold Rbil, unit.
+  assert (G : forall s, sumR (map (fun xr : R * list R => fst xr * Rdot (snd xr) y)
+                (combine (map (fun i => if Nat.eqb i a then @one ROps else @zero ROps) (seq s (length M))) M))
+              = if (s <=? a)%nat then Rdot (nth (a - s) M []) y else 0).
+  { induction M as [|r M IH]; intros s; cbn [length seq map combine sumR fst snd].
+    - destruct (s <=? a)%nat; [destruct (a - s)%nat|]; unfold Rdot; reflexivity.
+    - rewrite IH. destruct (Nat.eqb s a) eqn:E.
+      + apply Nat.eqb_eq in E. subst. replace (a - a)%nat with 0%nat by lia.
+        destruct (S a <=? a)%nat eqn:E1; [apply Nat.leb_le in E1; lia|]. rewrite Nat.leb_refl. unfold one, zero; cbn [nth ofZ ROps]; lra.
+      + apply Nat.eqb_neq in E. destruct (s <=? a)%nat eqn:E1.
+        * apply Nat.leb_le in E1. destruct (S s <=? a)%nat eqn:E2; [|apply Nat.leb_gt in E2; lia].
+          replace (a - s)%nat with (S (a - S s)) by lia. unfold one, zero; cbn [nth ofZ ROps]; lra.
+        * apply Nat.leb_gt in E1. destruct (S s <=? a)%nat eqn:E2; [apply Nat.leb_le in E2; lia|]. unfold one, zero; cbn [nth ofZ ROps]; lra. }
+  rewrite G. cbn. rewrite Nat.sub_0_r. reflexivity.
+Qed.
+Lemma mget_Rbil n (M : Rmat) a b : wfm n M -> (a < n)%nat ->
+  @mget ROps M a b = Rbil (@unit ROps n a) M (@unit ROps n b).
+Proof.
+  intros HM Ha. rewrite (Rbil_unit_l n) by apply HM.
+  rewrite <- (wfm_row n M a HM Ha) at 1. rewrite Rdot_unit. reflexivity.
+Qed.
+Lemma mget_build n (es : list Rentry) a b : Forall (inr n) es -> (a < n)%nat -> (b < n)%nat ->
+  @mget ROps (buildR n es) a b = ES es (ind a) (ind b).
+Proof.
+  intros HF Ha Hb. rewrite (mget_Rbil n) by (auto using build_wfm). rewrite Rbil_build by exact HF.
+  unfold ES. rewrite Forall_forall in HF. apply sumR_map_ext. intros [[i j] v] He. destruct (HF _ He) as [Hi Hj]. cbn [fst snd] in *.
+  rewrite !nth_unit. apply Nat.ltb_lt in Hi, Hj. rewrite Hi, Hj. reflexivity.
+Qed.
+(* a matrix built from an update list whose entry sum is symmetric in (f, g) is symmetric *)
+Lemma build_symmetric n (es : list Rentry) : Forall (inr n) es -> (forall f g, ES es f g = ES es g f) ->
+  forall a b, (a < n)%nat -> (b < n)%nat -> @mget ROps (buildR n es) a b = @mget ROps (buildR n es) b a.
+Proof. intros HF HS a b Ha Hb. rewrite !mget_build by auto. apply HS. Qed.
+Definition xh (x : list R) (i : nat) : R := nth i x 0.
+Lemma quad_build n (es : list Rentry) x : Forall (inr n) es -> @quad ROps (buildR n es) x = ES es (xh x) (xh x).
+Proof. intros HF. unfold quad. rewrite bil_R. apply Rbil_build, HF. Qed.
+
+(* ------------------------------------------------------------------ symmetric neighbour relations *)
+Definition swap (p : nat * nat) : nat * nat := (snd p, fst p).
+Definition symE (E : list (nat * nat)) : Prop := Permutation E (map swap E).
+Lemma swap_swap p : swap (swap p) = p.
+Proof. destruct p; reflexivity. Qed.
+
+Lemma symE_sum (g : nat * nat -> R) E : symE E -> sumR (map g E) = sumR (map (fun p => g (swap p)) E).
+Proof. intros H. rewrite (sumR_perm _ _ (Permutation_map g H)), map_map. reflexivity. Qed.
+
+Lemma symE_upairs (h : nat * nat -> R) E : symE E -> (forall p, h (swap p) = h p) -> (forall a, h (a, a) = 0) ->
+  sumR (map h E) = 2 * sumR (map h (filter (fun p => (fst p <? snd p)%nat) E)).
+Proof.
+  intros HS Hh H0.
+  set (A := fun p : nat * nat => if (fst p <? snd p)%nat then h p else 0).
+  set (B := fun p : nat * nat => if (snd p <? fst p)%nat then h p else 0).
+  assert (E1 : sumR (map h E) = sumR (map A E) + sumR (map B E)).
+  { rewrite <- sumR_map_add. apply sumR_map_ext. intros [i k] _. unfold A, B. cbn [fst snd].
+    destruct (Nat.ltb_spec i k) as [X|X], (Nat.ltb_spec k i) as [Y|Y]; try lra; try lia.
+    assert (i = k) by lia. subst. rewrite H0. lra. }
+  assert (E2 : sumR (map B E) = sumR (map A E)).
+  { rewrite (symE_sum B E HS). apply sumR_map_ext. intros [i k] _. unfold A, B, swap. cbn [fst snd].
+    destruct (i <? k)%nat; auto. apply (Hh (i, k)). }
+  rewrite sumR_filter_ind. fold A. lra.
+Qed.
+
+Definition pair_dec : forall x y : nat * nat, {x = y} + {x <> y}.
+Proof. decide equality; apply Nat.eq_dec. Defined.
+Lemma count_pair_occ p l : count_pair p l = count_occ pair_dec l p.
+Proof.
+  unfold count_pair. induction l as [|q l IH]; cbn [filter count_occ length]; auto.
+  destruct (pair_dec q p) as [->|N].
+  - rewrite !Nat.eqb_refl. cbn. rewrite IH. reflexivity.
+  - destruct ((fst p =? fst q)%nat && (snd p =? snd q)%nat) eqn:E; [|exact IH].
+    apply andb_true_iff in E. destruct E as [E1 E2]. apply Nat.eqb_eq in E1, E2. destruct p, q; cbn in *; subst. contradiction.
+Qed.
+Lemma count_occ_swap l p : count_occ pair_dec (map swap l) p = count_occ pair_dec l (swap p).
+Proof.
+  rewrite <- (swap_swap p) at 1. symmetry. apply count_occ_map.
+  intros x y H. rewrite <- (swap_swap x), <- (swap_swap y), H. reflexivity.
+Qed.
+Lemma nb_symmetric_symE nb : nb_symmetric nb = true -> symE (edges nb).
+Proof.
+  unfold nb_symmetric, symE. set (E := edges nb). intros H. rewrite forallb_forall in H.
+  apply (Permutation_count_occ pair_dec). intros p. rewrite count_occ_swap.
+  assert (HE : forall q, In q E -> count_occ pair_dec E q = count_occ pair_dec E (swap q)).
+  { intros q Hq. specialize (H q Hq). apply Nat.eqb_eq in H. rewrite !count_pair_occ in H. exact H. }
+  destruct (in_dec pair_dec p E) as [Hp|Hp]; [apply HE, Hp|].
+  destruct (in_dec pair_dec (swap p) E) as [Hq|Hq].
+  - specialize (HE _ Hq). rewrite swap_swap in HE. symmetry. exact HE.
+  - apply (count_occ_not_In pair_dec) in Hp, Hq. rewrite Hp, Hq. reflexivity.
+Qed.
+
+(* ------------------------------------------------------------------ sums over update lists / indexed lists *)
+Lemma ES_app es1 es2 f g : ES (es1 ++ es2) f g = ES es1 f g + ES es2 f g.
+Proof. unfold ES. rewrite map_app, sumR_app. reflexivity. Qed.
+Lemma ES_cons e es f g : ES (e :: es) f g = f (fst (fst e)) * snd e * g (snd (fst e)) + ES es f g.
+Proof. reflexivity. Qed.
+Lemma ES_flat_map {A} (F : A -> list Rentry) l f g : ES (flat_map F l) f g = sumR (map (fun a => ES (F a) f g) l).
+Proof. unfold ES. apply sumR_flat_map. Qed.
+
+Lemma map_fst_combine_seq {A} (l : list A) s : map fst (combine (seq s (length l)) l) = seq s (length l).
+Proof. revert s. induction l; intros s; cbn; auto. rewrite IHl. reflexivity. Qed.
+Lemma sum_indexed_fst {A} (F : nat -> R) (l : list A) :
+  sumR (map (fun ir => F (fst ir)) (indexed l)) = sumR (map F (seq 0 (length l))).
+Proof. unfold indexed. rewrite <- (map_map fst F), map_fst_combine_seq. reflexivity. Qed.
+Lemma sum_edges (G : nat * nat -> R) nb :
+  sumR (map G (edges nb)) = sumR (map (fun ir => sumR (map (fun k => G (fst ir, k)) (snd ir))) (indexed nb)).
+Proof. unfold edges. rewrite sumR_flat_map. apply sumR_map_ext. intros [i row] _. cbn [fst snd]. rewrite map_map. reflexivity. Qed.
+
+Lemma in_indexed {A} (l : list A) i a : In (i, a) (indexed l) -> (i < length l)%nat /\ In a l.
+Proof.
+  unfold indexed. intros H. split.
+  - apply in_combine_l in H. apply in_seq in H. lia.
+  - apply in_combine_r in H. exact H.
+Qed.
+
+Definition nb_inr (n : nat) (nb : list (list nat)) : Prop := Forall (Forall (fun k => (k < n)%nat)) nb.
+Lemma nb_in_range_inr nb n : nb_in_range n nb = true -> nb_inr n nb.
+Proof.
+  unfold nb_in_range, nb_inr. intros H. rewrite forallb_forall in H. apply Forall_forall. intros r Hr.
+  specialize (H r Hr). rewrite forallb_forall in H. apply Forall_forall. intros k Hk. apply Nat.ltb_lt, H, Hk.
+Qed.
+
+(* ------------------------------------------------------------------ constant scheme *)
+Lemma ES_const_row c2 i row f g :
+  ES (@const_row ROps c2 i row) f g = sumR (map (fun k => c2 * (f i * g i - f i * g k)) row).
+Proof.
+  unfold const_row. rewrite ES_flat_map. apply sumR_map_ext. intros k _. unfold ES. cbn. lra.
+Qed.
+Lemma const_row_inr n c2 i row : (i < n)%nat -> Forall (fun k => (k < n)%nat) row -> Forall (inr n) (@const_row ROps c2 i row).
+Proof.
+  intros Hi HF. unfold const_row. apply Forall_forall. intros e He. apply in_flat_map in He. destruct He as [k [Hk He]].
+  rewrite Forall_forall in HF. specialize (HF k Hk). cbn in He. destruct He as [<-|[<-|[]]]; split; cbn; auto.
+Qed.
+Lemma constant_entries_inr eps c nb : nb_inr (length nb) nb -> Forall (inr (length nb)) (@constant_entries ROps eps c nb).
+Proof.
+  intros H. unfold constant_entries. apply Forall_forall. intros e He. apply in_flat_map in He. destruct He as [[i row] [Hir He]].
+  apply in_indexed in Hir. destruct Hir as [Hi Hrow]. unfold nb_inr in H. rewrite Forall_forall in H. specialize (H row Hrow).
+  cbn [fst snd] in He. destruct He as [<-|He]; [split; cbn; auto|].
+  pose proof (const_row_inr (length nb) (@sq ROps c) i row Hi H) as HF. rewrite Forall_forall in HF. apply HF, He.
+Qed.
+Lemma ES_constant eps c nb f g :
+  ES (@constant_entries ROps eps c nb) f g =
+  eps * sumR (map (fun i => f i * g i) (seq 0 (length nb))) + c * c * sumR (map (fun p => f (fst p) * g (fst p) - f (fst p) * g (snd p)) (edges nb)).
+Proof.
+  unfold constant_entries. rewrite ES_flat_map.
+  rewrite <- (sum_indexed_fst (fun i => f i * g i) nb), sum_edges, <- !sumR_map_scal, <- sumR_map_add.
+  apply sumR_map_ext. intros [i row] _. cbn [fst snd]. rewrite ES_cons, ES_const_row. cbn [fst snd].
+  rewrite <- sumR_map_scal. unfold sq. cbn [mul ROps].
+  assert (X : sumR (map (fun k => c * c * (f i * g i - f i * g k)) row) = sumR (map (fun x => c * c * (f i * g i - f i * g x)) row)) by reflexivity.
+  lra.
+Qed.
+
+Lemma edges_sym_fg nb (f g : nat -> R) : symE (edges nb) ->
+  sumR (map (fun p => f (fst p) * g (snd p)) (edges nb)) = sumR (map (fun p => g (fst p) * f (snd p)) (edges nb)).
+Proof.
+  intros H. rewrite (symE_sum _ _ H). apply sumR_map_ext. intros [i k] _. cbn. lra.
+Qed.
+Lemma ES_constant_sym eps c nb : symE (edges nb) -> forall f g,
+  ES (@constant_entries ROps eps c nb) f g = ES (@constant_entries ROps eps c nb) g f.
+Proof.
+  intros H f g. rewrite !ES_constant. rewrite !sumR_map_sub, (edges_sym_fg nb f g H).
+  f_equal; [f_equal; apply sumR_map_ext; intros; lra|].
+  f_equal. f_equal; apply sumR_map_ext; intros; lra.
+Qed.
+
+Definition d2 (x : list R) (p : nat * nat) : R := (xh x (fst p) - xh x (snd p)) * (xh x (fst p) - xh x (snd p)).
+(* sum over directed edges of x_i^2 - x_i x_k  =  sum over undirected pairs of (x_i - x_k)^2 *)
+Lemma edges_quadratic nb x : symE (edges nb) ->
+  sumR (map (fun p => xh x (fst p) * xh x (fst p) - xh x (fst p) * xh x (snd p)) (edges nb)) = sumR (map (d2 x) (upairs nb)).
+Proof.
+  intros H. set (g := fun p : nat * nat => xh x (fst p) * xh x (fst p) - xh x (fst p) * xh x (snd p)).
+  assert (E1 : 2 * sumR (map g (edges nb)) = sumR (map (d2 x) (edges nb))).
+  { transitivity (sumR (map g (edges nb)) + sumR (map (fun p => g (swap p)) (edges nb))).
+    - rewrite <- (symE_sum g _ H). lra.
+    - rewrite <- sumR_map_add. apply sumR_map_ext. intros [i k] _. unfold g, d2, swap. cbn [fst snd]. lra. }
+  assert (E2 : sumR (map (d2 x) (edges nb)) = 2 * sumR (map (d2 x) (upairs nb))).
+  { unfold upairs. apply symE_upairs; auto.
+    - intros [i k]. unfold d2, swap. cbn [fst snd]. lra.
+    - intros a. unfold d2. cbn [fst snd]. lra. }
+  lra.
+Qed.
+Lemma norm2_R x : @norm2 ROps x = sumR (map (fun v => v * v) x).
+Proof. unfold norm2. rewrite sumT_sumR. reflexivity. Qed.
+Lemma norm2_seq x n : length x = n -> sumR (map (fun i => xh x i * xh x i) (seq 0 n)) = @norm2 ROps x.
+Proof. intros H. rewrite norm2_R. apply (sum_nth_seq0 (fun v => v * v) x n H). Qed.
+Lemma diff2_R x p : @diff2 ROps x p = d2 x p.
+Proof. reflexivity. Qed.
+
+Lemma constant_quadratic eps c nb x : nb_inr (length nb) nb -> symE (edges nb) -> length x = length nb ->
+  @quad ROps (@constant_matrix ROps eps c nb) x = @qf_constant ROps eps c nb x.
+Proof.
+  intros HR HS HL. unfold constant_matrix. rewrite quad_build by (apply constant_entries_inr, HR).
+  rewrite ES_constant. rewrite (norm2_seq x _ HL), (edges_quadratic nb x HS).
+  unfold qf_constant. rewrite sumT_sumR. unfold sq. cbn [add mul ROps].
+  change (@diff2 ROps x) with (d2 x). tr. lra.
+Qed.
+Lemma constant_symmetric eps c nb : nb_inr (length nb) nb -> symE (edges nb) -> forall a b,
+  (a < length nb)%nat -> (b < length nb)%nat ->
+  @mget ROps (@constant_matrix ROps eps c nb) a b = @mget ROps (@constant_matrix ROps eps c nb) b a.
+Proof.
+  intros HR HS. apply build_symmetric; [apply constant_entries_inr, HR | apply ES_constant_sym, HS].
+Qed.
+Lemma norm2_nonneg x : 0 <= @norm2 ROps x.
+Proof. rewrite norm2_R. apply sumR_map_nonneg. intros v. nra. Qed.
+Lemma norm2_pos x : (exists i, nth i x 0 <> 0) -> 0 < @norm2 ROps x.
+Proof.
+  rewrite norm2_R. intros [i Hi]. revert i Hi. induction x as [|a x IH]; intros i Hi.
+  - destruct i; cbn in Hi; lra.
+  - cbn [map sumR]. assert (0 <= sumR (map (fun v => v * v) x)) by (apply sumR_map_nonneg; intros; nra).
+    destruct i as [|i]; cbn [nth] in Hi.
+    + assert (0 < a * a) by nra. lra.
+    + specialize (IH i Hi). nra.
+Qed.
+Lemma qf_constant_lower eps c nb x : eps * @norm2 ROps x <= @qf_constant ROps eps c nb x.
+Proof.
+  unfold qf_constant. rewrite sumT_sumR. unfold sq. cbn [add mul ROps].
+  assert (H1 : 0 <= sumR (map (d2 x) (upairs nb))) by (apply sumR_map_nonneg; intros p; unfold d2; apply Rle_0_sqr).
+  change (@diff2 ROps x) with (d2 x). tr.
+  assert (H2 : 0 <= c * c) by apply Rle_0_sqr.
+  pose proof (Rmult_le_pos _ _ H2 H1). lra.
+Qed.
